@@ -319,15 +319,7 @@ void run_case(vf::Case& c)
     x.subject    = fn.subject;
     x.op         = fn.op;
     x.kind       = fn.kind;
-    if (fn.kind == AP) {
-        long b = bound_of(fn.subject);
-        if (b < 0) {
-            vf::crumb(fn.subject, fn.op, "setup", "no entry in C16_bounds.json");
-            vf::record("inconclusive", "no-bound", "missing", "entry in C16_bounds.json");
-            return;
-        }
-        x.bound = (std::uint64_t)b;
-    }
+    if (fn.kind == AP && !need_bound(fn.subject, fn.op, &x.bound)) { return; }
     vf::crumb(x.subject, x.op, x.blockcls, "sign=%d biased-exponent=%u %s n=%zu", (int)x.sign, x.e,
         x.ranged ? "ranged" : (x.raw ? "random patterns" : "mantissa plan"), x.list.size());
     fn.run(x);
@@ -341,10 +333,7 @@ void run_case(vf::Case& c)
     if (x.maxulp) {
         char a[96];
         fp::show(a, sizeof a, x.maxat);
-        char txt[200];
-        std::snprintf(txt, sizeof txt, "maxulp|%s|%llu|%s", x.subject, (unsigned long long)x.maxulp, a);
-        vf::Json j;
-        j.str("k", "note").str("text", txt).emit();
+        note_maxulp(x.subject, x.maxulp, a);
     }
 }
 } // namespace
